@@ -16,7 +16,7 @@
    * CertReloader::new only logs an expired initial certificate (side lemma cert_new_accepts_expired);
      the initial pair is validated as a pair but not for expiry. *)
 From Coq Require Import List NArith ZArith Bool.
-From AnyTLS Require Import Generated CertReload CertReloadProofs CertReloadLegacy.
+From AnyTLS Require Import Generated FactsCert CertReload CertReloadProofs CertReloadLegacy.
 Import ListNotations.
 Open Scope Z_scope.
 
@@ -123,7 +123,12 @@ Proof. exact failures_keep_state. Qed.
 Print Assumptions C18_success_persists.
 
 (* a connection accepted after the operations `before` is served with the pair active at that
-   moment, whatever reloads / accepts follow before its handshake *)
+   moment, whatever reloads / accepts follow before its handshake 
+   Premise tied to the code: the model operation CrAccept takes the snapshot at the moment the
+   connection is accepted. In server.rs `listen` this is `self.tls_config.read().unwrap().clone()`
+   placed AFTER `listener.accept().await` inside the loop -- pinned by the side lemma
+   FactsCert.listen_snapshot_after_accept_true (regenerated from the source on every run) and
+   exercised on a real loopback listener by the `certlisten` correspondence scenario. *)
 Theorem C18_snapshot :
   forall (blob chain pkey ident : Type) (parse_certs : blob -> option chain)
          (parse_key : blob -> option pkey) (pair_ok : chain -> pkey -> bool)
